@@ -15,6 +15,7 @@ import (
 	"verif/harness/internal/vh"
 	batch "volcano.sh/apis/pkg/apis/batch/v1alpha1"
 	scheduling "volcano.sh/apis/pkg/apis/scheduling/v1beta1"
+	"volcano.sh/volcano/pkg/controllers/job"
 	schedapi "volcano.sh/volcano/pkg/scheduler/api"
 )
 
@@ -63,6 +64,32 @@ func run(sel int, in []int64) []int64 {
 			return []int64{1}
 		}
 		return encObs(obs)
+	case 6:
+		// createJobPod for all missing replicas of one task, built in one pass from one copy of the
+		// task template and read only afterwards -- exactly what syncJob does (462-502)
+		r := &jobctl.R{T: in}
+		sp := r.Spec()
+		ver, retry, k := r.Z(), r.Z(), int(r.Z())
+		n := int(r.Z())
+		j := jobctl.NewJob("nsc")
+		j.Spec = jobctl.GoSpec(sp)
+		j.Status.Version, j.Status.RetryCount = int32(ver), int32(retry)
+		ts := j.Spec.Tasks[k]
+		ts.Template.Name = ts.Name
+		tc := ts.Template.DeepCopy()
+		var pods []*v1.Pod
+		for x := 0; x < n; x++ {
+			pods = append(pods, job.VerifCreateJobPod(j, tc, int(r.Z()), false, nil, &ts))
+		}
+		w := &jobctl.W{}
+		w.Z(int64(len(pods)))
+		for _, p := range pods {
+			w.Z(taskNum(p.Annotations[batch.TaskSpecKey]), atoi(p.Annotations[batch.TaskIndex]),
+				taskNum(p.Labels[batch.TaskSpecKey]), atoi(p.Labels[batch.TaskIndex]),
+				atoi(p.Annotations[batch.JobVersion]), atoi(p.Annotations[batch.JobRetryCountKey]),
+				userNum(p.Labels[jobctl.UserLabel]), userNum(p.Annotations[jobctl.UserAnnotation]))
+		}
+		return w.T
 	case 3:
 		r := &jobctl.R{T: in}
 		sp := r.Spec()
@@ -158,7 +185,15 @@ func taskNum(s string) int64 {
 	return atoi(s[1:])
 }
 
-func markerCase(ns string, p *v1.Pod, ver, retry int64, uid string) []int64 {
+func userNum(s string) int64 {
+	if len(s) < 2 {
+		return 0
+	}
+	return atoi(s[1:])
+}
+
+// expected (task, index, version, retry, template cpu / mem) and everything createJobPod derives
+func markerCase(ns string, p *v1.Pod, ver, retry int64, uid string, cpu, mem int64) []int64 {
 	pgName := jobctl.JobName + "-" + uid
 	t, i := jobctl.PodID(p.Name)
 	owner := false
@@ -167,13 +202,16 @@ func markerCase(ns string, p *v1.Pod, ver, retry int64, uid string) []int64 {
 		owner = true
 	}
 	ti := schedapi.NewTaskInfo(p)
-	return []int64{t, i, ver, retry,
+	one := len(p.Spec.Containers) == 1 && p.Spec.Containers[0].Name == "c" && len(p.Spec.Volumes) == 0 && p.Spec.SchedulerName == "volcano"
+	return []int64{t, i, ver, retry, cpu, mem,
 		taskNum(p.Annotations[batch.TaskSpecKey]), atoi(p.Annotations[batch.TaskIndex]), atoi(p.Annotations[batch.JobVersion]),
 		atoi(p.Annotations[batch.JobRetryCountKey]), taskNum(p.Labels[batch.TaskSpecKey]), atoi(p.Labels[batch.TaskIndex]),
 		vh.B(owner), vh.B(p.Annotations[scheduling.KubeGroupNameAnnotationKey] == pgName),
 		vh.B(p.Annotations[batch.JobNameKey] == jobctl.JobName && p.Labels[batch.JobNameKey] == jobctl.JobName && p.Labels[batch.JobNamespaceKey] == ns),
 		vh.B(p.Annotations[batch.QueueNameKey] == jobctl.QueueName && p.Labels[batch.QueueNameKey] == jobctl.QueueName),
-		vh.B(string(ti.Job) == ns+"/"+pgName && ti.TaskRole == jobctl.TaskName(t))}
+		vh.B(string(ti.Job) == ns+"/"+pgName && ti.TaskRole == jobctl.TaskName(t)),
+		userNum(p.Labels[jobctl.UserLabel]), userNum(p.Annotations[jobctl.UserAnnotation]),
+		vh.B(p.Annotations[batch.PodTemplateKey] == jobctl.JobName+"-"+jobctl.TaskName(t) && p.Name == jobctl.PodName(t, i) && one)}
 }
 
 func specEq(a, b jobctl.Spec) bool {
@@ -243,7 +281,14 @@ func laws(sel int, in, got []int64, law func(lsel int, lin []int64, sig string))
 					cacheSpec = apiSpec // the UpdateStatus response refreshes the cached job
 				}
 				for _, p := range cur.Created {
-					law(204, markerCase(p.Namespace, p, prev.Cache.Version, prev.Cache.Retry, cur.JobUID), "")
+					var cpu, mem int64
+					pt, _ := jobctl.PodID(p.Name)
+					for _, ts := range h.Spec.Tasks {
+						if ts.Name == pt {
+							cpu, mem = ts.Cpu, ts.Mem
+						}
+					}
+					law(204, markerCase(p.Namespace, p, prev.Cache.Version, prev.Cache.Retry, cur.JobUID, cpu, mem), "")
 				}
 			}
 		}
@@ -294,6 +339,8 @@ func laws(sel int, in, got []int64, law func(lsel int, lin []int64, sig string))
 				law(203, w.T, "")
 			}
 		}
+	case 6:
+		law(211, append(append([]int64{}, in...), got...), "")
 	case 3:
 		law(206, append(append([]int64{}, in...), got...), "")
 	case 4:
